@@ -152,7 +152,9 @@ Nud(B, P, t) ==
                           ELSE LET S == Unescape(U.s, 1, <<>>) IN IF S.ok THEN POk([k |-> "String", s |-> S.s], P) ELSE PErr(P)
       [] ty = "number" -> LET N == ParseNumeral(Txt(B, t)) IN
                           IF ~N.ok THEN PErr(P)
-                          ELSE LET v == NumeralValue(N) IN IF v.t = "numx" THEN PAbst(P) ELSE POk([k |-> "Number", num |-> v], P)
+                          \* G7: a numeral whose magnitude exceeds the double range is a compile error
+                          ELSE IF NumeralTooBig(N) THEN PErr(P)
+                          ELSE LET v == NumeralValue(N) IN IF v.t = "numx" THEN POk([k |-> "Number", num |-> NumX], P) ELSE POk([k |-> "Number", num |-> v], P)
       [] ty = "boolean" -> POk([k |-> "Boolean", b |-> (Txt(B, t) = <<116, 114, 117, 101>>)], P)
       [] ty = "null" -> POk([k |-> "Null"], P)
       [] ty = "variable" -> LET U == Utf8Text(Txt(B, t)) IN IF U.ok THEN POk([k |-> "VariableCps", s |-> U.s], P) ELSE PAbst(P)
